@@ -17,6 +17,9 @@ pub struct ConnState {
     pub dirty: bool,
     /// a watched key was addressed by a write that left it identical: EXEC may abort (don't care)
     pub maybe_dirty: bool,
+    /// UNWATCH arrived between MULTI and EXEC: Redis queues it (watches stay until EXEC), forgetting them at
+    /// once is also accepted - whether a later change aborts is a don't-care
+    pub unwatch_in_multi: bool,
     pub chans: Vec<Bytes>,
     pub pats: Vec<Bytes>,
     pub open: bool,
@@ -202,6 +205,7 @@ impl ConnModel {
                     st.watched.clear();
                     st.dirty = false;
                     st.maybe_dirty = false;
+                    st.unwatch_in_multi = false;
                     vec![Exp::Is(R::ok())]
                 }
             }
@@ -227,8 +231,11 @@ impl ConnModel {
                     st.watched.clear();
                     st.dirty = false;
                     st.maybe_dirty = false;
+                    vec![Exp::Is(R::ok())]
+                } else {
+                    st.unwatch_in_multi = true;
+                    vec![Exp::OneOf(vec![Exp::Is(R::ok()), Exp::Is(R::Simple(b"QUEUED".to_vec()))])]
                 }
-                vec![Exp::Is(R::ok())]
             }
             "EXEC" => {
                 if !self.conns[c].in_multi {
@@ -246,7 +253,10 @@ impl ConnModel {
                             }
                         }
                     }
-                    let maybe = self.conns[c].maybe_dirty;
+                    let maybe = self.conns[c].maybe_dirty || (self.conns[c].unwatch_in_multi && dirty);
+                    if self.conns[c].unwatch_in_multi {
+                        dirty = false;
+                    }
                     let queue = std::mem::take(&mut self.conns[c].queue);
                     {
                         let st = &mut self.conns[c];
@@ -254,6 +264,7 @@ impl ConnModel {
                         st.watched.clear();
                         st.dirty = false;
                         st.maybe_dirty = false;
+                        st.unwatch_in_multi = false;
                     }
                     let aborted_actual = matches!(first, R::NilArr | R::Nil);
                     if dirty {
